@@ -134,26 +134,30 @@ def check_one(seq, mode, labels, offset, koff=0):
         for e in exp_edges:
             if got_edges[e] != exp_edges[e]:
                 bad("edge-labels-copied", f"edge {sorted(e)} attrs {got_edges[e]} expected {exp_edges[e]}")
-    # involution: complement the new strand alone
+    # involution: complement the new strand alone, once renumbered from 1 and once with the residue ids it carries
     if not viols:
-        g2 = nx.Graph()
         keys = [by_resid[n + k + offset] for k in range(1, n + 1)]
-        for i, key in enumerate(keys):
-            g2.add_node(i, resname=mm.nodes[key]["resname"], resid=i + 1)
-        for a, b, d in mm.edges(data=True):
-            if a in new_keys and b in new_keys:
-                g2.add_edge(keys.index(a), keys.index(b), **d)
-        mm2 = MetaMolecule(g2, force_field=None, mol_name="dna")
-        try:
-            complement_dsDNA(mm2)
-            back = [mm2.nodes[k]["resname"] for k in mm2.nodes if mm2.nodes[k]["resid"] > n]
-            back.sort(key=lambda _: 0)
-            r2 = {mm2.nodes[k]["resid"]: mm2.nodes[k]["resname"] for k in mm2.nodes}
-            back = [r2[n + k] for k in range(1, n + 1)]
-            if back != names:
-                bad("involution", f"double complement {back} != {names}")
-        except Exception as exc:  # noqa
-            bad("involution", f"{type(exc).__name__}: {exc}", ["exc"])
+        for keep_ids in (False, True):
+            g2 = nx.Graph()
+            base = (n + offset) if keep_ids else 0
+            for i, key in enumerate(keys):
+                g2.add_node(i, resname=mm.nodes[key]["resname"], resid=i + 1 + base)
+            for a, b, d in mm.edges(data=True):
+                if a in new_keys and b in new_keys:
+                    g2.add_edge(keys.index(a), keys.index(b), **d)
+            mm2 = MetaMolecule(g2, force_field=None, mol_name="dna")
+            tags = ["strand-keeps-its-resids"] if keep_ids else []
+            try:
+                complement_dsDNA(mm2)
+                r2 = {mm2.nodes[k]["resid"]: mm2.nodes[k]["resname"] for k in mm2.nodes}
+                back = [r2.get(base + n + k) for k in range(1, n + 1)]
+                if back != names:
+                    bad("involution", f"double complement {back} != {names}", tags)
+                ne2 = sum(1 for a, b in mm2.edges if a >= n and b >= n)
+                if ne2 != len(exp_edges):
+                    bad("involution", f"complement of the added strand has {ne2} edges, the original strand {len(exp_edges)}", tags)
+            except Exception as exc:  # noqa
+                bad("involution", f"{type(exc).__name__}: {exc}", ["exc"] + tags)
     return viols
 
 
@@ -222,7 +226,7 @@ def run_case(case):
             v = check_one(case["seq"], case["mode"], case["labels"], case["offset"], case.get("koff", 0))
         return dict(evals=1, keys=[], violations=v, stats={})
     evals, keys, viols = 0, [], []
-    offsets = [0] if case["tier"] == "quick" else [0, 4]
+    offsets = [0, 4]
     nrej = 0
     for seq in case["seqs"]:
         n = len(seq)
@@ -233,6 +237,8 @@ def run_case(case):
                 continue
             for labels in (False, True):
                 for off in offsets:
+                    if off and case["tier"] == "quick" and n > 4:
+                        continue
                     for koff in ((0, 1) if n <= 4 or case["tier"] == "thorough" else (0,)) + ((7,) if n <= 3 else ()):
                         viols += check_one(seq, mode, labels, off, koff)
                         evals += 1
